@@ -49,6 +49,11 @@ struct Scenario {
     /// that client's reply frames): the stream's later items only appear once the other client
     /// has been sent that many frames.
     stream_gate: Option<(usize, usize, usize, usize, usize)>,
+    /// C10: (streaming client, index of its streaming call, waiting client, k): the stream never
+    /// returns `Pending` until it is exhausted; the waiting client's one call arrives, in one
+    /// piece, once the streaming client has been sent k frames. While that call waits the server
+    /// may forward at most a couple of further items.
+    stream_flood: Option<(usize, usize, usize, usize)>,
 }
 
 /// Payload size for a big `Len` call: around 2^16, around 2^17, tens of kB, and (scripted clients
@@ -150,7 +155,7 @@ fn long_lived_scenario(kind: Kind, w: &mut W) -> Scenario {
     clients.push(ClientSpec { cid: 99, calls: vec![e(false), CallSpec::Fail { oneway: false }, e(false), e(false)], faults: vec![], pingpong: false, closes: false, after_quiet: true });
     let late = vec![None; clients.len()];
     let real = vec![None; clients.len()];
-    Scenario { stream_gate: None, yield_first: false, clients, late, singles: vec![], suspends: false, mode: format!("long-lived server: {n} short-lived connections one after the other, flavour {flavour}"), real }
+    Scenario { stream_flood: None, stream_gate: None, yield_first: false, clients, late, singles: vec![], suspends: false, mode: format!("long-lived server: {n} short-lived connections one after the other, flavour {flavour}"), real }
 }
 
 fn gen_scenario(kind: Kind, w: &mut W) -> Scenario {
@@ -160,11 +165,11 @@ fn gen_scenario(kind: Kind, w: &mut W) -> Scenario {
     }
     if first == NOTIFIED_MODE && kind == Kind::C18 && w.tape.draw(4) == 0 {
         // the rest of the tape is read by `c18b::run`
-        return Scenario { stream_gate: None, yield_first: false, clients: vec![], late: vec![], singles: vec![], suspends: false, mode: "REAL-SMOL".into(), real: vec![] };
+        return Scenario { stream_flood: None, stream_gate: None, yield_first: false, clients: vec![], late: vec![], singles: vec![], suspends: false, mode: "REAL-SMOL".into(), real: vec![] };
     }
     if first == NOTIFIED_MODE && kind == Kind::C10 {
         // the rest of the tape is read by `c10n::run`
-        return Scenario { stream_gate: None, yield_first: false, clients: vec![], late: vec![], singles: vec![], suspends: false, mode: "NOTIFIED".into(), real: vec![] };
+        return Scenario { stream_flood: None, stream_gate: None, yield_first: false, clients: vec![], late: vec![], singles: vec![], suspends: false, mode: "NOTIFIED".into(), real: vec![] };
     }
     if first == LONG_MODE && kind != Kind::C18 && w.tape.draw(64) == 63 && w.tape.draw(8) == 0 {
         w.stat("long_lived_server_runs");
@@ -282,7 +287,9 @@ fn gen_scenario(kind: Kind, w: &mut W) -> Scenario {
             for c in 0..n {
                 if c < n_flood {
                     let ncalls = 20 + t.draw(41);
-                    let calls = (0..ncalls).map(|_| CallSpec::Echo { pad: t.draw(12), oneway: false }).collect();
+                    // a flooder's calls may be oneway (nothing is written back for them): none / all / mixed
+                    let ow = t.draw(4);
+                    let calls = (0..ncalls).map(|_| CallSpec::Echo { pad: t.draw(12), oneway: ow == 2 || (ow == 3 && t.draw(2) == 1) }).collect();
                     clients.push(ClientSpec { cid: 10 + c as u32, calls, faults: vec![], pingpong: false, closes: t.draw(3) == 2, after_quiet: false });
                     late.push(None);
                 } else {
@@ -360,8 +367,37 @@ fn gen_scenario(kind: Kind, w: &mut W) -> Scenario {
             }
         }
     }
-    let mode = format!("seeded cfg={:?} service_suspends={suspends} stream_size_hint={} stream_gate={stream_gate:?}", w.cfg, w.stream_size_hint);
-    Scenario { stream_gate, yield_first, clients, late, singles, suspends, mode, real }
+    // C10: in one world of four (without a gated stream), a stream that is never pending and a
+    // client whose single call arrives while it is being forwarded
+    let mut stream_flood = None;
+    if kind == Kind::C10 && stream_gate.is_none() && t.draw(4) == 3 {
+        let a = clients.len();
+        let long = t.draw(8) == 7;
+        let n_items = 8 + t.draw(if long { 400 } else { 70 });
+        let mut calls = Vec::new();
+        for _ in 0..t.draw(2) {
+            calls.push(CallSpec::Echo { pad: t.draw(10), oneway: false });
+        }
+        let j = calls.len();
+        calls.push(CallSpec::Stream { flags: vec![0; n_items], ends: true });
+        for _ in 0..t.draw(2) {
+            calls.push(CallSpec::Echo { pad: t.draw(10), oneway: false });
+        }
+        clients.push(ClientSpec { cid: 10 + a as u32, calls, faults: vec![], pingpong: false, closes: false, after_quiet: false });
+        late.push(None);
+        real.push(None);
+        let b = clients.len();
+        clients.push(ClientSpec { cid: 10 + b as u32, calls: vec![CallSpec::Echo { pad: t.draw(8), oneway: false }], faults: vec![], pingpong: false, closes: false, after_quiet: false });
+        late.push(None);
+        real.push(None);
+        stream_flood = Some((a, j, b, j + t.draw(n_items.saturating_sub(3).max(1))));
+        // a transport that withholds readable bytes makes the waiting call invisible to the server
+        // (same reasoning as for C18)
+        w.cfg.read_yields_first = false;
+        w.cfg.read_pending_despite_data = false;
+    }
+    let mode = format!("seeded cfg={:?} service_suspends={suspends} stream_size_hint={} stream_gate={stream_gate:?} stream_flood={stream_flood:?}", w.cfg, w.stream_size_hint);
+    Scenario { stream_flood, stream_gate, yield_first, clients, late, singles, suspends, mode, real }
 }
 
 /// Small fixed scenarios whose interleavings are enumerated by the digits that follow on the tape
@@ -431,7 +467,7 @@ fn sys_scenario(kind: Kind, w: &mut W) -> Scenario {
         late.push(None);
     }
     let real = vec![None; clients.len()];
-    Scenario { stream_gate: None, yield_first, clients, late, singles, suspends: false, mode: format!("systematic spec={spec}"), real }
+    Scenario { stream_flood: None, stream_gate: None, yield_first, clients, late, singles, suspends: false, mode: format!("systematic spec={spec}"), real }
 }
 
 impl Prop for ServerProp {
@@ -511,6 +547,15 @@ impl Prop for ServerProp {
                 world.borrow_mut().stat("real_zlink_clients");
             }
         }
+        if let Some((a, j, b, k)) = sc.stream_flood {
+            let mut w = world.borrow_mut();
+            w.eager_streams.push((sc.clients[a].cid, j as u32));
+            let gate = Gate { pipe: infos[a].s2c, nuls: k, counter: 0 };
+            if let Some(seg) = w.pipes[infos[b].c2s].segs.front_mut() {
+                seg.gate = Some(gate);
+            }
+            w.pipes[infos[b].c2s].chunk_override = Some(Chunk::Whole);
+        }
         if let Some((a, j, from, x, nuls)) = sc.stream_gate {
             let gate = Gate { pipe: infos[x].s2c, nuls, counter: 0 };
             world.borrow_mut().stream_gates.push((sc.clients[a].cid, j as u32, from, gate));
@@ -520,7 +565,15 @@ impl Prop for ServerProp {
             // C18: single callers deliver their call in one piece; arrival moments via gates
             for (i, l) in sc.late.iter().enumerate() {
                 if let Some((f, k)) = l {
-                    let gate = Gate { pipe: infos[*f].s2c, nuls: (*k).min(sc.clients[*f].calls.len().saturating_sub(1)), counter: 0 };
+                    // "once flooder f has been sent k replies"; a flooder of oneway calls is sent
+                    // nothing, so for it the moment is "once k calls have been handled"
+                    let owed = reference_output(sc.clients[*f].cid, &sc.clients[*f].calls).0.len();
+                    let cap = sc.clients[*f].calls.len().saturating_sub(1);
+                    let gate = if owed > (*k).min(cap) {
+                        Gate { pipe: infos[*f].s2c, nuls: (*k).min(cap).min(owed.saturating_sub(1)), counter: 0 }
+                    } else {
+                        Gate { pipe: infos[*f].s2c, nuls: 0, counter: (*k).min(cap) as u64 }
+                    };
                     if let Some(seg) = w.pipes[infos[i].c2s].segs.front_mut() {
                         seg.gate = Some(gate);
                     }
@@ -683,6 +736,28 @@ impl Prop for ServerProp {
                 }
             }
             let _ = ci;
+        }
+
+        // ------------------------------------------------------------------ C10: served while a stream is open
+        if let Some((a, _j, b, _k)) = sc.stream_flood {
+            let w = world.borrow();
+            let info = &infos[b];
+            let end = info.call_end_offsets[0];
+            let readable = w.pipes[info.c2s].deliveries.iter().find(|(_, d)| *d >= end).map(|(q, _)| *q);
+            let accepted = w.accepts.iter().find(|(_, p)| *p == info.c2s).map(|(q, _)| *q);
+            let handled = run.handled.iter().find(|h| h.cid == sc.clients[b].cid).map(|h| h.at);
+            if let (Some(r), Some(ac), Some(h)) = (readable, accepted, handled) {
+                let start = r.max(ac);
+                let items = w.stream_item_seqs.iter().filter(|q| **q > start && **q < h).count();
+                if items > 2 {
+                    return Err((
+                        "C10/other-client-not-served-while-stream-open".into(),
+                        format!("client {} had a complete call readable from event {start} on; the server forwarded {items} more items of client {}'s open reply stream before it handled that call at event {h}", sc.clients[b].cid, sc.clients[a].cid),
+                    ));
+                }
+                drop(w);
+                world.borrow_mut().stat("probe.call_served_promptly_while_a_never_pending_stream_was_open");
+            }
         }
 
         // ------------------------------------------------------------------ C09: relational re-run
